@@ -1,7 +1,7 @@
 """C17: index market values are share-weighted averages of their components -- Engine R (+F)."""
 from .. import common
 from ._r import run_r, replay_r
-from ..acceptors_r2 import acc_C17, make_index_observers
+from ..acceptors_r2 import acc_C17, make_index_observers, wavg, close
 from ..explore_r import Scenario, S, mkcfg, bl, sl, bm, sm, run_once, IndexMarket
 
 WIT = ["index_clock_advances", "unequal_shares", "three_components", "past_time_with_unequal_component_prices",
@@ -87,6 +87,137 @@ def invalid_component_sets(res):
     res.coverage["invalid_component_sets"] = out
 
 
+# ------------------------------------------------------------------------------------------------
+# direct driving of Simulator / Market / IndexMarket: evaluations interleaved with clock advances, trades,
+# a component added later and outstanding shares revised (not reachable through a runner configuration)
+
+D_OPS = [("eval",), ("adv",), ("add",), ("shares", 0, 5), ("shares", 1, 1), ("trade", 0, 104.0), ("trade", 1, 96.0), ("trade", 2, 108.0)]
+
+
+class DWorld:
+    def __init__(self):
+        import random
+        from pams.simulator import Simulator
+        from pams.market import Market
+        from pams.order import Order, LIMIT_ORDER
+        self.Order, self.LIMIT = Order, LIMIT_ORDER
+        sim = Simulator(prng=random.Random(0))
+        self.sim = sim
+        self.ms = []
+        for i, (sh, p0) in enumerate(((1, 100.0), (2, 100.0), (5, 100.0))):
+            m = Market(i, random.Random(i), sim, "M%d" % i)
+            m.setup({"tickSize": 1.0, "marketPrice": p0, "outstandingShares": sh})
+            sim._add_market(m)
+            sim.fundamentals.add_market(i, 100.0 + 10 * i, 2.0 ** -7 * i, 0.0)
+            self.ms.append(m)
+        idx = IndexMarket(3, random.Random(9), sim, "IDX")
+        idx.setup({"tickSize": 1.0, "marketPrice": 100.0, "markets": ["M0", "M1"]})
+        sim._add_market(idx)
+        self.idx = idx
+        self.added = False
+        self.wit = common.Counter()
+        self.adv()
+        for m in self.ms + [idx]:
+            m._is_running = True
+
+    def adv(self):
+        self.sim._update_times_on_markets(self.sim.markets)
+        t = self.idx.get_time()
+        comps = self.idx.get_components()
+        want = wavg([(c.outstanding_shares, c.get_fundamental_price(t)) for c in comps])
+        got = self.idx.get_fundamental_price(t)
+        if not close(got, want, 1e-12):
+            raise common.Violation("C17.fundamental", "the fundamental value an index market records at a clock advance is not the share-weighted average of its components' fundamentals for the new time",
+                                   "t=%d got %r expected %r (%d components)" % (t, got, want, len(comps)))
+        self.wit.inc("direct_clock_advances")
+
+    def apply(self, op):
+        k = op[0]
+        if k == "adv":
+            self.adv()
+        elif k == "add":
+            if self.added:
+                return False
+            self.idx._add_market(self.ms[2])
+            self.added = True
+            self.wit.inc("component_added_after_evaluation")
+        elif k == "shares":
+            if self.ms[op[1]].outstanding_shares == op[2]:
+                return False
+            self.ms[op[1]].outstanding_shares = op[2]
+            self.wit.inc("shares_revised_after_evaluation")
+        elif k == "trade":
+            m = self.ms[op[1]]
+            m._add_order(self.Order(0, m.market_id, True, self.LIMIT, 1, price=op[2]))
+            m._add_order(self.Order(0, m.market_id, False, self.LIMIT, 1, price=op[2]))
+            m._execution()
+        self.check()
+        return True
+
+    def check(self):
+        idx = self.idx
+        t = idx.get_time()
+        comps = idx.get_components()
+        for s_ in list(range(0, t + 1)) + [None]:
+            ss = t if s_ is None else s_
+            want = wavg([(c.outstanding_shares, c.get_market_price(ss)) for c in comps])
+            for name in ("get_index", "get_market_index", "compute_market_index"):
+                got = getattr(idx, name)(s_) if s_ is not None else getattr(idx, name)()
+                if not close(got, want, 1e-12):
+                    raise common.Violation("C17.index", "an index value differs from the share-weighted average of the components' market prices at that time",
+                                           "%s(%s) at t=%d: got %r expected %r (%d components, shares %s)" % (name, s_, t, got, want, len(comps), [c.outstanding_shares for c in comps]))
+            self.wit.inc("direct_index_evaluations")
+
+    def canon(self):
+        idx = self.idx
+        t = idx.get_time()
+        return (t, self.added, tuple(m.outstanding_shares for m in self.ms), tuple(tuple(m.get_market_prices()) for m in self.ms))
+
+
+def direct_search(res, depth):
+    from ..acceptors_r2 import close as _c  # noqa
+    seen = set()
+    frontier = [()]
+    trans = 0
+    wit = common.Counter()
+    for d in range(depth + 1):
+        nxt = []
+        for h in frontier:
+            for oi in range(len(D_OPS)):
+                nh = h + (oi,)
+                try:
+                    w = DWorld()
+                    w.check()
+                    ok = True
+                    for i in nh:
+                        if w.apply(D_OPS[i]) is False:
+                            ok = False
+                            break
+                except common.Violation as v:
+                    trans += 1
+                    res.add_violation(v.monitor, v.msg, "%s:%s" % (v.monitor, v.msg.split(" | ")[0].replace(" ", "_")[:60]),
+                                      dict(engine="F", grid="direct_index_api", history=[list(D_OPS[i]) for i in nh]))
+                    continue
+                if not ok:
+                    continue
+                trans += 1
+                wit.merge(w.wit)
+                c = common.digest(w.canon())
+                if c not in seen:
+                    seen.add(c)
+                    nxt.append(nh)
+        frontier = nxt
+        if d == depth - 1:
+            break
+    cov = res.coverage
+    cov["direct_index_api"] = dict(ops=len(D_OPS), depth=depth, states=len(seen), transitions=trans)
+    cov["states"] = cov.get("states", 0) + len(seen)
+    cov["transitions"] = cov.get("transitions", 0) + trans
+    wc = cov.setdefault("witness_classes", {})
+    for k, v in wit.items():
+        wc[k] = wc.get(k, 0) + v
+
+
 def on_exc(w):
     return ("C17.run_aborted", "the run aborted | %s: %s" % (type(w.exc).__name__, str(w.exc)[:80]))
 
@@ -99,10 +230,24 @@ def run(tier, seed):
     run_r("C17", tier, seed, sc, [acc_C17], b, on_exc, [], RULE, res=res, label="share_grid")
     run_r("C17", tier, seed, deep, [acc_C17], b + 1, on_exc, WIT, RULE, res=res, label="share_grid_deeper")
     invalid_component_sets(res)
+    direct_search(res, 5 if tier == "quick" else 6)
+    res.require_witness(["component_added_after_evaluation", "shares_revised_after_evaluation", "direct_index_evaluations"])
     return res
 
 
 def replay(payload):
+    if payload.get("grid") == "direct_index_api":
+        w = DWorld()
+        try:
+            for op in payload["history"]:
+                print("  op", op)
+                w.apply(tuple(op))
+        except common.Violation as v:
+            print("  ==> VIOLATION %s: %s" % (v.monitor, v.msg))
+            print("VIOLATION property=C17 replay=(this file)")
+            return 1
+        print("replay: no violation on this tree")
+        return 0
     if str(payload.get("scenario", "")).startswith("invalid:"):
         res = common.Result("C17", "quick", 0)
         invalid_component_sets(res)
